@@ -7,6 +7,7 @@ from ..r_hygiene import rule_hygiene as _rule_hygiene
 from ..r_pack import rule_half_float_decoder as _rule_half
 from ..r_pack import rule_unpach_dispatch as _rule_unpach
 from ..r_query import rule_isotope_setter as _rule_iso_setter
+from ..r_round8 import rule_half_float_encoder as _r8_enc
 
 LEVEL = 'other'
 
@@ -29,3 +30,4 @@ def run(ck, repo):
     _rule_half(ck, repo, 'C10.D1-half-float')
     _rule_unpach(ck, repo, 'C10.D3-unpach-dispatch')
     _rule_iso_setter(ck, repo, 'C10.D2-isotope-setter')
+    _r8_enc(ck, repo, 'C10.D6-half-float-encoder')
